@@ -1224,20 +1224,39 @@ func checkMinifyGate(p *Prog, r *Result, si *syntaxInfo) {
 	for b := range under {
 		for _, n := range b.Nodes {
 			for _, c := range nodeCalls(n) {
-				se, ok := c.Fun.(*ast.SelectorExpr)
-				if !ok || !strings.HasPrefix(se.Sel.Name, "Write") {
+				// any call that is handed the text of a comment writes it (directly, or through the escaping writer);
+				// fileutil.Shebang only inspects it
+				if strings.HasSuffix(qualName(calleeOf(info, c)), "fileutil.Shebang") {
 					continue
+				}
+				if tv, ok := info.Types[c.Fun]; ok && tv.IsType() {
+					continue // a conversion
 				}
 				mentionsText := false
 				for _, a := range c.Args {
 					ast.Inspect(a, func(z ast.Node) bool {
+						if cc, ok := z.(*ast.CallExpr); ok && strings.HasSuffix(qualName(calleeOf(info, cc)), "fileutil.Shebang") {
+							return false
+						}
 						if s2, ok := z.(*ast.SelectorExpr); ok && s2.Sel.Name == "Text" {
-							mentionsText = true
+							if fv := selectorField(info, s2); fv != nil && namedOf(derefType(info.TypeOf(s2.X))) != nil && namedOf(derefType(info.TypeOf(s2.X))).Obj().Name() == "Comment" {
+								mentionsText = true
+							}
 						}
 						return true
 					})
 				}
 				if !mentionsText {
+					continue
+				}
+				// nested calls (strings.TrimRightFunc("#"+c.Text, …) inside writeLit(…)) are reported once, at the outermost call
+				nested := false
+				for _, c2 := range nodeCalls(n) {
+					if c2 != c && c2.Pos() <= c.Pos() && c.End() <= c2.End() && !strings.HasSuffix(qualName(calleeOf(info, c2)), "fileutil.Shebang") {
+						nested = true
+					}
+				}
+				if nested {
 					continue
 				}
 				shebang := underEdges(g, b, func(e *FEdge) bool {
